@@ -17,6 +17,10 @@ def gen_payloads(rng, tier):
     ps = [b"", b"\n", b"# TABDOC:", b"# TABDOC:\n", b"# TABDOC: f\n", b"# TABDOC: f d\n# TABDOC: f d\n",
           b"# TABDOC:   spaced    out   desc  \n", b"#TABDOC: no\n", b" # TABDOC: indented\n", b"# TABDOC:nospace desc",
           b"# TABDOC: tab_list - This function list\n", b"# TABDOC: it's\n", b"# TABDOC: a 'q' \\ \"d\" $(x) `y`\n"]
+    # very long payload lines (an embedded blob, a minified script) between tagged lines: around bufio.Scanner's 64 KiB token limit and beyond
+    for big in (65535, 65536, 70000, 200000):
+        ps.append(b"# TABDOC: before first\n" + b"x" * big + b"\n# TABDOC: after second\n")
+    ps.append(b"# TABDOC: a one\n# TABDOC: " + b"y" * 3000 + b" long\n# TABDOC: z last\n")
     n = 500 if tier == "quick" else 8000
     words = [b"f", b"g", b"longer_name", b"x", b"\xc3\xa9t\xc3\xa9", b"a'b", b"z" * 30]
     for _ in range(n):
